@@ -576,7 +576,7 @@ pub fn c10(rep: &mut Report, cfg: &Cfg) {
         let seed = rng.next();
         c10_case(rep, seed, false);
     }
-    rep.notes.push("C10: generated guest programs (main with flag-dependent branches, memory read-modify-write, calls, optional TRAPA critical sections with I set; one handler stub per vector 1-63 that logs its vector number and ends in RTE) x request schedules (single requests, bursts at one boundary, bursts while a handler runs, repeated vectors, requests just before the end). Driver A = stepping loop with exact observation around every acceptance point; driver B = the real run() with injection in the per-iteration hook. Offline rules: entered only with I clear, one per boundary, through its own vector, frame = {CCR, next PC}; request multiset = entry multiset at the end; guest handler log = entry sequence; final main-visible state = request-free run of the same real code; run() log and final state = stepping-loop log and state. Cells: (vector, I at request, I at entry, burst size, handler active), schedule hashes.".into());
+    rep.notes.push("C10: generated guest programs (main with flag-dependent branches, memory read-modify-write, calls, optional TRAPA critical sections with I set; one handler stub per vector 1-63 that logs its vector number and ends in RTE) x request schedules (single requests, bursts at one boundary, bursts while a handler runs, repeated vectors, requests just before the end). Driver A = stepping loop with exact observation around every acceptance point; driver B = the real run() with injection in the per-iteration hook. Offline rules: entered only with I clear, one per boundary, through its own vector, frame = {CCR, next PC}; request multiset = entry multiset at the end; guest handler log = entry sequence; final main-visible state = request-free run of the same real code; the run() log is judged by the same rules on its own (at which end of an iteration it accepts and in which order it serves simultaneous requests is its choice; masked acceptance is decided by the stacked CCR). Bursts up to 513 pending requests; plain I/O register contents as configuration noise. Cells: (vector, I at request, I at entry, burst size, handler active), schedule hashes.".into());
 }
 
 pub fn replay(line: &str) -> (bool, String) {
